@@ -28,7 +28,7 @@ func ghostSegmentsOrdered(w *Writer) bool {
 }
 
 //@ func Writer.Cut
-//@   property C08
+//@   property C08 C17
 //@   panics when w.sealedFlag
 //@   requires w.activeBuffer != nil
 //@   modifies w.sealedBuffers, w.activeBuffer, bufferSegment.latestSeqNum, bufferSegment.buf, bufferSegment.readOffset
@@ -42,7 +42,7 @@ func ghostSegmentsOrdered(w *Writer) bool {
 // Rotate: the next writer carries every segment with its bytes AND its
 // sequence mark; otherwise the next Truncate would drop unflushed operations.
 //@ func Writer.Rotate
-//@   property C08
+//@   property C08 C17
 //@   panics when w.sealedFlag
 //@   requires w.activeBuffer != nil
 //@   modifies w.sealedFlag, Writer.*, bufferSegment.*
@@ -67,7 +67,7 @@ func ghostSegmentsOrdered(w *Writer) bool {
 // Truncate(s): only whole leading segments whose mark is <= s are dropped;
 // every segment holding an operation above s stays, in order.
 //@ func Writer.Truncate
-//@   property C08
+//@   property C08 C17
 //@   panics when w.sealedFlag
 //@   modifies w.sealedBuffers
 //@   ensures len(w.sealedBuffers) <= old(len(w.sealedBuffers))
@@ -81,14 +81,14 @@ func ghostSegmentsOrdered(w *Writer) bool {
 // Put/Delete append one operation to the active segment (the bytes go through
 // io.Writer and are not modelled here) and advance the writer's sequence mark.
 //@ func Writer.Put
-//@   property C08
+//@   property C08 C17
 //@   panics when w.sealedFlag
 //@   requires w.activeBuffer != nil && seqNum >= w.latestSeqNum
 //@   modifies w.latestSeqNum, bufferSegment.buf
 //@   ensures w.latestSeqNum == seqNum
 
 //@ func Writer.Delete
-//@   property C08
+//@   property C08 C17
 //@   panics when w.sealedFlag
 //@   requires w.activeBuffer != nil && seqNum >= w.latestSeqNum
 //@   modifies w.latestSeqNum, bufferSegment.buf
